@@ -1,690 +1,3 @@
-//! C08 — side effects happen in source order, as often as control flow dictates.
-//!
-//! Every sub-expression position of every multi-operand construct is an
-//! effect marker `e(k)` (returns k, logs k) or `eb(k, b)` (returns the input
-//! bool b, logs (k, b)). All expressions up to the depth bound and all
-//! statement bodies up to the size bound are enumerated; each program runs on
-//! all 16 vectors of its four bool inputs; the host-call log (function,
-//! arguments, order, multiplicity) and the result must equal the reference
-//! interpreter's.
-
-use c00ref::gen_expr::{bin, blk, var};
-use c00ref::*;
-use roto::{NoCtx, TypedFunc};
-use vcore::{Cfg, Check, Cx, Finding, Meta, SUB_SETUP, Tier, Value, Violation, json};
-
-const CHUNK: usize = 300;
-const I32: IntTy = IntTy::I32;
-
-// ------------------------------------------------------------ generator
-// Expressions are built without marker numbers; `number()` assigns k = 1, 2, ..
-// in source (pre-order, left-to-right) position afterwards.
-
-fn em() -> E {
-    E::Host("e".into(), vec![E::Int(0, None, I32)])
-}
-fn ebm(input: usize) -> E {
-    E::Host("eb".into(), vec![E::Int(0, None, I32), var(["p", "q", "r", "s"][input % 4])])
-}
-
-fn int_forms(ints: &[E], bools: &[E], full: bool) -> Vec<E> {
-    let mut out = vec![];
-    let ops = [BinOp::Add, BinOp::Sub, BinOp::Mul, BinOp::Div, BinOp::Mod];
-    for op in ops {
-        for l in ints {
-            for r in ints {
-                out.push(bin(op, l.clone(), r.clone()));
-            }
-        }
-    }
-    for x in ints {
-        out.push(E::Neg(Box::new(x.clone())));
-    }
-    // calls: 1-4 arguments
-    for x in ints {
-        out.push(E::Call("h1".into(), vec![x.clone()]));
-    }
-    for l in ints {
-        for r in ints {
-            out.push(E::Call("h2".into(), vec![l.clone(), r.clone()]));
-            // receiver first: the receiver expression is itself effectful
-            out.push(E::Method(
-                Box::new(E::Call("lst".into(), vec![l.clone()])),
-                "contains".into(),
-                vec![r.clone()],
-            ).pipe_bool());
-            // operands and receivers are snapshots: an assignment to the
-            // variable inside a LATER operand / argument must not be seen
-            for (op, is_bool) in [(BinOp::Sub, false), (BinOp::Mul, false), (BinOp::Lt, true), (BinOp::Eq, true), (BinOp::Ne, true)] {
-                let rhs = E::Block(blk(vec![S::Expr(E::Assign(vec!["x".into()], Box::new(r.clone())))], Some(E::Int(1, None, I32))));
-                let e = bin(op, var("x"), rhs);
-                let e = if is_bool { e.pipe_bool() } else { e };
-                out.push(E::Block(blk(vec![S::Let("x".into(), Some(Ty::Int(I32)), l.clone())], Some(e))));
-            }
-            {
-                // x.contains({ x = es(r); es(l) }): the receiver is the OLD x
-                let arg = E::Block(blk(
-                    vec![S::Expr(E::Assign(vec!["x".into()], Box::new(E::Host("es".into(), vec![r.clone()]))))],
-                    Some(E::Host("es".into(), vec![E::Int(7, None, I32)])),
-                ));
-                let call = E::Method(Box::new(var("x")), "contains".into(), vec![arg]).pipe_bool();
-                out.push(E::Block(blk(
-                    vec![S::Let("x".into(), Some(Ty::Str), E::Host("es".into(), vec![E::Int(7, None, I32)]))],
-                    Some(call),
-                )));
-                // h2(x, { x = r; 2 }): call arguments are snapshots too
-                let arg2 = E::Block(blk(vec![S::Expr(E::Assign(vec!["x".into()], Box::new(r.clone())))], Some(E::Int(2, None, I32))));
-                out.push(E::Block(blk(
-                    vec![S::Let("x".into(), Some(Ty::Int(I32)), l.clone())],
-                    Some(E::Call("h2".into(), vec![var("x"), arg2])),
-                )));
-            }
-            // receiver and argument are both calls that log when they run
-            out.push(E::Method(
-                Box::new(E::Host("es".into(), vec![l.clone()])),
-                "contains".into(),
-                vec![E::Host("es".into(), vec![r.clone()])],
-            ).pipe_bool());
-            out.push(E::Call("slen".into(), vec![E::Method(
-                Box::new(E::Host("es".into(), vec![l.clone()])),
-                "append".into(),
-                vec![E::Host("es".into(), vec![r.clone()])],
-            )]));
-            out.push(E::Call("slen".into(), vec![bin(
-                BinOp::Add,
-                E::Host("es".into(), vec![l.clone()]),
-                E::Host("es".into(), vec![r.clone()]),
-            )]));
-            // record literal written in non-declared order, both fields read
-            out.push(E::Field(
-                Box::new(E::Rec(Some("R".into()), vec![("b".into(), l.clone()), ("a".into(), r.clone())])),
-                "a".into(),
-            ));
-            out.push(E::Field(
-                Box::new(E::Rec(None, vec![("y".into(), l.clone()), ("x".into(), r.clone())])),
-                "y".into(),
-            ));
-            // list elements
-            out.push(E::Call("first".into(), vec![E::ListLit(vec![l.clone(), r.clone()])]));
-            // enum constructor arguments
-            out.push(E::Call("pick".into(), vec![E::Ctor("P".into(), "Two".into(), vec![l.clone(), r.clone()])]));
-            // block: statements top to bottom
-            out.push(E::Block(blk(vec![S::Expr(l.clone())], Some(r.clone()))));
-            // f-string parts
-            out.push(E::Call("slen".into(), vec![E::FStr(vec![
-                FPart::Expr(l.clone()),
-                FPart::Text("-".into()),
-                FPart::Expr(r.clone()),
-            ])]));
-        }
-    }
-    let three: Vec<&E> = if full { ints.iter().collect() } else { ints.iter().take(2).collect() };
-    for a in &three {
-        for b in &three {
-            for c in &three {
-                out.push(E::Call("h3".into(), vec![(*a).clone(), (*b).clone(), (*c).clone()]));
-            }
-        }
-    }
-    if let Some(x) = ints.first() {
-        out.push(E::Call("h4".into(), vec![x.clone(), x.clone(), x.clone(), x.clone()]));
-    }
-    for c in bools {
-        for l in ints {
-            for r in ints {
-                out.push(E::If(Box::new(c.clone()), blk(vec![], Some(l.clone())), Some(blk(vec![], Some(r.clone())))));
-            }
-            // match on an option built from effectful parts
-            out.push(E::Match(
-                Box::new(E::Call("opt".into(), vec![c.clone(), l.clone()])),
-                vec![
-                    Arm { variant: Some("Some".into()), binds: vec!["y".into()], guard: None, body: blk(vec![], Some(bin(BinOp::Add, var("y"), em()))) },
-                    Arm { variant: Some("None".into()), binds: vec![], guard: None, body: blk(vec![], Some(em())) },
-                ],
-            ));
-        }
-    }
-    out
-}
-
-trait PipeBool {
-    fn pipe_bool(self) -> E;
-}
-impl PipeBool for E {
-    /// bool -> i32 through `b2i`
-    fn pipe_bool(self) -> E {
-        E::Call("b2i".into(), vec![self])
-    }
-}
-
-fn bool_forms(ints: &[E], bools: &[E]) -> Vec<E> {
-    let mut out = vec![];
-    for op in CMP {
-        for l in ints {
-            for r in ints {
-                out.push(bin(op, l.clone(), r.clone()));
-            }
-        }
-    }
-    for op in [BinOp::And, BinOp::Or] {
-        for l in bools {
-            for r in bools {
-                out.push(bin(op, l.clone(), r.clone()));
-            }
-        }
-    }
-    for x in bools {
-        out.push(E::Not(Box::new(x.clone())));
-    }
-    out
-}
-
-/// int- and bool-typed effect expressions up to `depth`
-fn effect_exprs(depth: u32, full: bool) -> (Vec<E>, Vec<E>) {
-    let mut ints = vec![em()];
-    let mut bools = vec![ebm(0)];
-    for d in 0..depth {
-        // keep the operand pools small at deeper levels: the leaf plus one
-        // representative of every construct of the previous level
-        let (pi, pb) = if d == 0 || (full && d == 1) { (ints.clone(), bools.clone()) } else { (sample(&ints), sample(&bools)) };
-        let ni = int_forms(&pi, &pb, full || d == 0);
-        let nb = bool_forms(&pi, &pb);
-        ints.extend(ni);
-        bools.extend(nb);
-    }
-    (ints, bools)
-}
-
-/// the leaf plus one expression per distinct root construct
-fn sample(v: &[E]) -> Vec<E> {
-    let mut seen = std::collections::HashSet::new();
-    let mut out = vec![];
-    for e in v {
-        let k = root_kind(e);
-        if seen.insert(k) {
-            out.push(e.clone());
-        }
-    }
-    out
-}
-
-fn root_kind(e: &E) -> String {
-    match e {
-        E::Bin(op, ..) => format!("bin{}", op.sym()),
-        E::Call(f, _) => format!("call {f}"),
-        E::Host(f, _) => format!("host {f}"),
-        E::Method(_, m, _) => format!("method {m}"),
-        E::Field(x, _) => format!("field {}", matches!(**x, E::Rec(Some(_), _))),
-        other => format!("{:?}", std::mem::discriminant(other)),
-    }
-}
-
-// ---- statement bodies -------------------------------------------------
-
-fn stmt_forms(ints: &[E], bools: &[E], bodies: &[Vec<S>]) -> Vec<Vec<S>> {
-    let mut out: Vec<Vec<S>> = vec![];
-    let i0 = &ints[0];
-    for x in ints {
-        out.push(vec![S::Expr(x.clone())]);
-        // compound assignment reads its target before the right-hand side runs
-        out.push(vec![
-            S::Let("x".into(), Some(Ty::Int(I32)), E::Int(1, None, I32)),
-            S::Expr(E::Compound(
-                vec!["x".into()],
-                BinOp::Add,
-                Box::new(E::Block(blk(
-                    vec![S::Expr(E::Assign(vec!["x".into()], Box::new(E::Int(10, None, I32))))],
-                    Some(x.clone()),
-                ))),
-            )),
-            S::Expr(E::Host("emit_i32".into(), vec![var("x")])),
-        ]);
-        // nothing after return runs
-        out.push(vec![S::Expr(E::Return(Some(Box::new(x.clone())))), S::Expr(em())]);
-        // for over an effectful list
-        out.push(vec![S::Expr(E::For(
-            "v".into(),
-            Box::new(E::ListLit(vec![x.clone(), i0.clone()])),
-            blk(vec![S::Expr(E::Host("emit_i32".into(), vec![var("v")])), S::Expr(em())], None),
-        ))]);
-    }
-    for c in bools {
-        for b in bodies {
-            for b2 in bodies.iter().take(2) {
-                out.push(vec![S::Expr(E::If(Box::new(c.clone()), blk(b.clone(), None), Some(blk(b2.clone(), None))))]);
-            }
-            out.push(vec![S::Expr(E::If(Box::new(c.clone()), blk(b.clone(), None), None))]);
-            // a loop condition runs once more than its body
-            out.push(vec![
-                S::Let("i".into(), Some(Ty::Int(I32)), E::Int(0, None, I32)),
-                S::Expr(E::While(
-                    Box::new(bin(BinOp::And, bin(BinOp::Lt, var("i"), E::Int(2, None, I32)), c.clone())),
-                    blk(
-                        {
-                            let mut v = b.clone();
-                            v.push(S::Expr(E::Assign(vec!["i".into()], Box::new(bin(BinOp::Add, var("i"), E::Int(1, None, I32))))));
-                            v
-                        },
-                        None,
-                    ),
-                )),
-            ]);
-            // guards are tried in source order, also across `_` arms
-            out.push(vec![S::Expr(E::Match(
-                Box::new(E::Call("opt".into(), vec![c.clone(), i0.clone()])),
-                vec![
-                    Arm { variant: Some("Some".into()), binds: vec!["y".into()], guard: Some(ebm(1)), body: blk(b.clone(), None) },
-                    Arm { variant: None, binds: vec![], guard: Some(ebm(2)), body: blk(vec![S::Expr(em())], None) },
-                    Arm { variant: Some("Some".into()), binds: vec!["y".into()], guard: Some(ebm(3)), body: blk(vec![S::Expr(em())], None) },
-                    Arm { variant: Some("Some".into()), binds: vec!["y".into()], guard: None, body: blk(vec![S::Expr(em())], None) },
-                    Arm { variant: Some("None".into()), binds: vec![], guard: None, body: blk(b.clone(), None) },
-                ],
-            ))]);
-            // `?` on None leaves the function: nothing after it runs
-            out.push(vec![
-                S::Expr(E::Call("tryit".into(), vec![c.clone()])),
-                S::Expr(em()),
-            ]);
-            // early return from a nested block
-            out.push(vec![
-                S::Expr(E::If(Box::new(c.clone()), blk(vec![S::Expr(E::Return(Some(Box::new(i0.clone()))))], None), None)),
-                S::Expr(em()),
-            ]);
-        }
-    }
-    out
-}
-
-fn bodies_upto(size: usize, full: bool) -> Vec<Vec<S>> {
-    let (ints, bools) = effect_exprs(1, false);
-    let ints = if full { ints } else { sample(&ints) };
-    let bools = if full { bools } else { sample(&bools) };
-    let mut level: Vec<Vec<S>> = vec![vec![S::Expr(em())]];
-    let mut all = level.clone();
-    for _ in 0..size {
-        let inner: Vec<Vec<S>> = level.iter().take(if full { 12 } else { 4 }).cloned().collect();
-        let forms = stmt_forms(&ints, &bools, &inner);
-        // sequences of two statements: every form followed by a marker and
-        // preceded by one
-        let mut next = forms.clone();
-        for f in forms.iter() {
-            let mut v = vec![S::Expr(em())];
-            v.extend(f.clone());
-            v.push(S::Expr(em()));
-            next.push(v);
-        }
-        all.extend(next.clone());
-        level = next;
-    }
-    all
-}
-
-// ---- numbering --------------------------------------------------------
-
-fn number_block(b: &mut Block, k: &mut i128) {
-    for s in &mut b.stmts {
-        match s {
-            S::Let(_, _, e) | S::Expr(e) => number(e, k),
-        }
-    }
-    if let Some(t) = &mut b.tail {
-        number(t, k);
-    }
-}
-
-fn number(e: &mut E, k: &mut i128) {
-    match e {
-        E::Host(f, args) if f == "e" || f == "eb" => {
-            *k += 1;
-            args[0] = E::Int(*k, None, I32);
-            for a in args.iter_mut().skip(1) {
-                number(a, k);
-            }
-        }
-        E::Call(_, a) | E::Host(_, a) | E::Ctor(_, _, a) | E::ListLit(a) => a.iter_mut().for_each(|x| number(x, k)),
-        E::Method(r, _, a) => {
-            number(r, k);
-            a.iter_mut().for_each(|x| number(x, k));
-        }
-        E::Neg(x) | E::Not(x) | E::Try(x) | E::Field(x, _) | E::Assign(_, x) | E::Compound(_, _, x) => number(x, k),
-        E::Return(x) | E::Accept(x) | E::Reject(x) => {
-            if let Some(x) = x {
-                number(x, k)
-            }
-        }
-        E::Bin(_, l, r) => {
-            number(l, k);
-            number(r, k);
-        }
-        E::If(c, t, f) => {
-            number(c, k);
-            number_block(t, k);
-            if let Some(f) = f {
-                number_block(f, k);
-            }
-        }
-        E::Block(b) => number_block(b, k),
-        E::Rec(_, fs) => fs.iter_mut().for_each(|(_, x)| number(x, k)),
-        E::Match(x, arms) => {
-            number(x, k);
-            for a in arms {
-                if let Some(g) = &mut a.guard {
-                    number(g, k);
-                }
-                number_block(&mut a.body, k);
-            }
-        }
-        E::FStr(parts) => {
-            for p in parts {
-                if let FPart::Expr(x) = p {
-                    number(x, k);
-                }
-            }
-        }
-        E::While(c, b) => {
-            number(c, k);
-            number_block(b, k);
-        }
-        E::For(_, l, b) => {
-            number(l, k);
-            number_block(b, k);
-        }
-        _ => {}
-    }
-}
-
-// ---- programs ---------------------------------------------------------
-
-fn prelude() -> (Vec<RecDecl>, Vec<EnumDecl>, Vec<Func>) {
-    let i = Ty::Int(I32);
-    let f = |name: &str, params: Vec<(&str, Ty)>, ret: Ty, body: E| Func {
-        name: name.into(),
-        params: params.into_iter().map(|(n, t)| (n.to_string(), t)).collect(),
-        ret,
-        body: blk(vec![], Some(body)),
-        filtermap: false,
-    };
-    let lit = |v: i128| E::Int(v, None, I32);
-    let funcs = vec![
-        f("h1", vec![("a", i.clone())], i.clone(), bin(BinOp::Add, var("a"), lit(1))),
-        f("h2", vec![("a", i.clone()), ("b", i.clone())], i.clone(), bin(BinOp::Add, bin(BinOp::Mul, var("a"), lit(3)), var("b"))),
-        f(
-            "h3",
-            vec![("a", i.clone()), ("b", i.clone()), ("c", i.clone())],
-            i.clone(),
-            bin(BinOp::Add, bin(BinOp::Add, bin(BinOp::Mul, var("a"), lit(3)), bin(BinOp::Mul, var("b"), lit(5))), var("c")),
-        ),
-        f(
-            "h4",
-            vec![("a", i.clone()), ("b", i.clone()), ("c", i.clone()), ("d", i.clone())],
-            i.clone(),
-            bin(BinOp::Sub, bin(BinOp::Add, var("a"), var("b")), bin(BinOp::Add, var("c"), var("d"))),
-        ),
-        f("b2i", vec![("b", Ty::Bool)], i.clone(), E::If(Box::new(var("b")), blk(vec![], Some(lit(1))), Some(blk(vec![], Some(lit(0)))))),
-        f("lst", vec![("a", i.clone())], Ty::List(Box::new(i.clone())), E::ListLit(vec![var("a"), lit(2)])),
-        f(
-            "first",
-            vec![("l", Ty::List(Box::new(i.clone())))],
-            i.clone(),
-            E::Match(
-                Box::new(E::Method(Box::new(var("l")), "get".into(), vec![E::Int(0, None, IntTy::U64)])),
-                vec![
-                    Arm { variant: Some("Some".into()), binds: vec!["v".into()], guard: None, body: blk(vec![], Some(var("v"))) },
-                    Arm { variant: Some("None".into()), binds: vec![], guard: None, body: blk(vec![], Some(lit(0))) },
-                ],
-            ),
-        ),
-        f(
-            "pick",
-            vec![("p", Ty::Named("P".into(), vec![]))],
-            i.clone(),
-            E::Match(
-                Box::new(var("p")),
-                vec![
-                    Arm { variant: Some("Two".into()), binds: vec!["x".into(), "y".into()], guard: None, body: blk(vec![], Some(bin(BinOp::Sub, var("x"), var("y")))) },
-                    Arm { variant: Some("Zero".into()), binds: vec![], guard: None, body: blk(vec![], Some(lit(0))) },
-                ],
-            ),
-        ),
-        f(
-            "slen",
-            vec![("s", Ty::Str)],
-            i.clone(),
-            E::Block(blk(vec![S::Expr(E::Host("emit_str".into(), vec![var("s")]))], Some(lit(7)))),
-        ),
-        f(
-            "opt",
-            vec![("c", Ty::Bool), ("x", i.clone())],
-            Ty::Opt(Box::new(i.clone())),
-            E::If(
-                Box::new(var("c")),
-                blk(vec![], Some(E::Ctor("Option".into(), "Some".into(), vec![var("x")]))),
-                Some(blk(vec![], Some(E::Ctor("Option".into(), "None".into(), vec![])))),
-            ),
-        ),
-        Func {
-            name: "tryit".into(),
-            params: vec![("c".into(), Ty::Bool)],
-            ret: Ty::Opt(Box::new(i.clone())),
-            body: blk(
-                vec![
-                    S::Let("v".into(), None, E::Try(Box::new(E::Call("opt".into(), vec![var("c"), E::Host("e".into(), vec![lit(90)])])))),
-                    S::Expr(E::Host("e".into(), vec![lit(91)])),
-                ],
-                Some(E::Ctor("Option".into(), "Some".into(), vec![var("v")])),
-            ),
-            filtermap: false,
-        },
-    ];
-    let recs = vec![RecDecl { name: "R".into(), tparams: vec![], fields: vec![("a".into(), "i32".into()), ("b".into(), "i32".into())] }];
-    let enums = vec![EnumDecl {
-        name: "P".into(),
-        tparams: vec![],
-        variants: vec![("Two".into(), vec!["i32".into(), "i32".into()]), ("Zero".into(), vec![])],
-    }];
-    (recs, enums, funcs)
-}
-
-fn entry(name: &str, body: Block) -> Func {
-    Func {
-        name: name.into(),
-        params: ["p", "q", "r", "s"].iter().map(|n| (n.to_string(), Ty::Bool)).collect(),
-        ret: Ty::Int(I32),
-        body,
-        filtermap: false,
-    }
-}
-
-/// all programs (entry bodies) of a tier
-fn all_bodies(tier: Tier) -> Vec<Block> {
-    let mut out = vec![];
-    let (ints, bools) = effect_exprs(tier.pick(2, 3), tier == Tier::Thorough);
-    for e in ints {
-        out.push(blk(vec![], Some(e)));
-    }
-    for b in bools {
-        out.push(blk(vec![], Some(b.pipe_bool())));
-    }
-    for b in bodies_upto(tier.pick(2, 3), tier == Tier::Thorough) {
-        out.push(blk(b, Some(E::Int(0, None, I32))));
-    }
-    for b in &mut out {
-        let mut k = 0;
-        number_block(b, &mut k);
-    }
-    out
-}
-
-fn cached(tier: Tier) -> &'static Vec<Block> {
-    static C: std::sync::OnceLock<Vec<Block>> = std::sync::OnceLock::new();
-    C.get_or_init(|| all_bodies(tier))
-}
-
-fn has_markers(b: &Block) -> usize {
-    print_block(b).matches("e(").count() + print_block(b).matches("eb(").count()
-}
-
-struct C08;
-
-impl Check for C08 {
-    fn id(&self) -> &'static str {
-        "C08"
-    }
-    fn units(&self, cfg: &Cfg) -> usize {
-        cached(cfg.tier).len().div_ceil(CHUNK)
-    }
-    fn max_deaths_per_unit(&self, _cfg: &Cfg) -> u32 {
-        // a well-typed generated program must never kill the process: a few
-        // deaths are enough evidence, re-running the unit after each is wasted
-        20
-    }
-    fn case_timeout_s(&self, cfg: &Cfg) -> f64 {
-        cfg.tier.pick(60.0, 300.0)
-    }
-    fn run_unit(&self, unit: usize, cx: &mut Cx) {
-        if !cx.case(SUB_SETUP) {
-            return;
-        }
-        let all = cached(cx.cfg.tier);
-        let lo = unit * CHUNK;
-        let hi = (lo + CHUNK).min(all.len());
-        let (recs, enums, helpers) = prelude();
-        let mut prog = Program { records: recs, enums, funcs: helpers };
-        for (i, b) in all[lo..hi].iter().enumerate() {
-            prog.funcs.push(entry(&format!("f{i}"), b.clone()));
-        }
-        let rt = host::runtime();
-        let text = print_program(&prog);
-        let mut pkg = match host::compile(&rt, &text) {
-            Ok(p) => Some(p),
-            Err(_) => None,
-        };
-        for (i, b) in all[lo..hi].iter().enumerate() {
-            let name = format!("f{i}");
-            let mut single;
-            let mut single_prog;
-            let (pk, pr, fname): (&mut roto::Package<NoCtx>, &Program, String) = match pkg.as_mut() {
-                Some(p) => (p, &prog, name.clone()),
-                None => {
-                    // batch failed: compile alone to find the culprit
-                    let (recs, enums, helpers) = prelude();
-                    single_prog = Program { records: recs, enums, funcs: helpers };
-                    single_prog.funcs.push(entry("f", b.clone()));
-                    if !cx.case(((i as u64) << 8) | 0xFF) {
-                        continue;
-                    }
-                    match host::compile(&rt, &print_program(&single_prog)) {
-                        Ok(p) => {
-                            single = p;
-                            (&mut single, &single_prog, "f".to_string())
-                        }
-                        Err(e) => {
-                            cx.violation(
-                                match e {
-                                    host::CompileFail::Panic(_) => "compile-panic",
-                                    host::CompileFail::Report(_) => "rejected",
-                                },
-                                (i as u64) << 8,
-                                json!({"program": print_func(&entry("f", b.clone()))}),
-                                json!("a well-typed program compiles"),
-                                json!(format!("{e:?}")),
-                            );
-                            continue;
-                        }
-                    }
-                }
-            };
-            let f: TypedFunc<NoCtx, fn(bool, bool, bool, bool) -> i32> = match pk.get_function(&fname) {
-                Ok(f) => f,
-                Err(e) => {
-                    cx.violation("get_function", (i as u64) << 8, json!({"program": print_block(b)}), json!("Ok"), json!(e.to_string()));
-                    continue;
-                }
-            };
-            cx.states(1);
-            let src = print_func(&entry("f", b.clone()));
-            let mut logs = std::collections::HashSet::new();
-            let mut reported = false;
-            for v in 0..16u64 {
-                let bits = [v & 1 != 0, v & 2 != 0, v & 4 != 0, v & 8 != 0];
-                let args: Vec<V> = bits.iter().map(|b| V::Bool(*b)).collect();
-                let expect = match eval_fn(pr, &fname, &args) {
-                    Ok(o) => o,
-                    Err(Stop::Unspecified(_)) | Err(Stop::Fuel) => {
-                        cx.unspecified(1);
-                        continue;
-                    }
-                    Err(Stop::Stuck(m)) => {
-                        if !reported {
-                            reported = true;
-                            cx.violation("model-stuck", (i as u64) << 8, json!({"program": src}), json!("model evaluates"), json!(m));
-                        }
-                        continue;
-                    }
-                    Err(Stop::Return(_)) => unreachable!(),
-                };
-                let sub = ((i as u64) << 8) | v;
-                if !cx.case(sub) {
-                    continue;
-                }
-                host::clear_log();
-                let got = f.call(bits[0], bits[1], bits[2], bits[3]);
-                let log = host::take_log();
-                cx.transitions(1);
-                cx.validated(1);
-                logs.insert(format!("{log:?}"));
-                let want = match expect.value {
-                    V::Int(_, x) => x as i32,
-                    _ => 0,
-                };
-                if (log != expect.log || got != want) && !reported {
-                    reported = true;
-                    cx.violation(
-                        if log != expect.log { "order-mismatch" } else { "value-mismatch" },
-                        sub,
-                        json!({"program": src, "inputs": {"p": bits[0], "q": bits[1], "r": bits[2], "s": bits[3]}}),
-                        json!({"log": format!("{:?}", expect.log), "value": want}),
-                        json!({"log": format!("{log:?}"), "value": got}),
-                    );
-                }
-            }
-            // non-trivial: at least two markers and the log depends on the inputs
-            if has_markers(b) >= 2 && logs.len() > 1 {
-                cx.nontrivial(vcore::util::fnv_str(&src));
-            }
-            let mut h = 0u64;
-            for l in &logs {
-                h ^= vcore::util::fnv_str(l);
-            }
-            cx.outcome(h);
-            if i == 0 {
-                cx.sample(json!({"program": src, "distinct_logs_over_16_inputs": logs.len()}));
-            }
-        }
-    }
-    fn describe(&self, cfg: &Cfg, unit: usize, sub: u64) -> Value {
-        if sub == SUB_SETUP {
-            return json!({"phase": "batch compile", "unit": unit});
-        }
-        let all = cached(cfg.tier);
-        let i = unit * CHUNK + (sub >> 8) as usize;
-        let v = sub & 0xFF;
-        json!({"program": all.get(i).map(|b| print_func(&entry("f", b.clone()))), "input_vector": v})
-    }
-    fn matches(&self, _f: &Finding, _v: &Violation) -> bool {
-        false
-    }
-    fn meta(&self, cfg: &Cfg) -> Meta {
-        Meta {
-            rule: "all effect-marker expressions over every multi-operand construct (binary/unary operators, calls with 1-4 arguments, method calls with an effectful receiver, record literals in non-declared order, list literals, enum constructors, f-strings, blocks, if/else, match) up to the depth bound, and all statement bodies (compound assignment, return, for, if, while, guarded match with interleaved `_` arms, `?`, early return) up to the size bound, each on all 16 input vectors; non-trivial = at least two markers and the log differs between input vectors".into(),
-            assumptions: vec!["reference interpreter c00ref defines left-to-right, receiver-first, short-circuit order".into()],
-            bounds: json!({"expr_depth": cfg.tier.pick(2, 3), "body_size": cfg.tier.pick(2, 3), "inputs": 16}),
-            states_are: "distinct generated programs".into(),
-            transitions_are: "calls of a compiled program on one input vector; log and value compared with the reference".into(),
-        }
-    }
-}
-
 fn main() {
-    vcore::main(&C08)
+    c08::run()
 }
